@@ -123,13 +123,11 @@ __CPROVER_ensures(SUB_IS(parser->uri->query_string, 1, N_ - 1))
 #define AU_ERR (parser->state == ERROR)
 static void s_parse_authority(struct uri_parser *parser, struct aws_byte_cursor *str)
 PARSER_REQ
-__CPROVER_requires(g_pu.calls == 0)
-/* coarse write set (each further target multiplies the frame checks of every store in the body); what must not change
- * inside *parser->uri is stated as postconditions instead */
-__CPROVER_assigns(parser->state, *parser->uri, *str, g_last_error, g_raise_count, g_mc_n, __CPROVER_object_whole(g_mc), g_pu)
+__CPROVER_requires(g_mc_on ==> g_pu.calls == 0)
+__CPROVER_assigns(parser->state, g_last_error, g_raise_count, g_mc_n, __CPROVER_object_whole(g_mc), g_pu.ptr, g_pu.len, g_pu.calls)
+__CPROVER_assigns(str->ptr, str->len, parser->uri->authority, parser->uri->path, parser->uri->path_and_query,
+                  parser->uri->userinfo, parser->uri->user, parser->uri->password, parser->uri->host_name, parser->uri->port)
 #define AU_KEPT(f) (AU->f == OLD(AU->f))
-__CPROVER_ensures(AU_KEPT(self_size) && AU_KEPT(allocator) && AU_KEPT(uri_str.len) && AU_KEPT(uri_str.buffer) && AU_KEPT(uri_str.capacity) &&
-                  AU_KEPT(uri_str.allocator) && SUB_SAME(AU->scheme) && SUB_SAME(AU->query_string) && parser->uri == OLD(parser->uri))
 __CPROVER_ensures(N_ == 0 ==> STR_AT(0) && SUB_SAME(AU->authority) && SUB_SAME(AU->userinfo) && SUB_SAME(AU->user) && SUB_SAME(AU->password) &&
                   SUB_SAME(AU->host_name) && SUB_SAME(AU->path) && SUB_SAME(AU->path_and_query) && AU_KEPT(port))
 /* empty remaining text: MALFORMED */
@@ -151,24 +149,12 @@ __CPROVER_ensures(AU_ERR ? g_raise_count > OLD(g_raise_count) && g_last_error ==
  * Both callers hand over a zeroed aws_uri whose uri_str holds the text.  Success: the text is kept and every component
  * view is NULL/0 or lies inside uri_str[0, len) ("inside the URI object's own copy of the text").  Failure: MALFORMED was
  * raised, the text is released and the whole object is zeroed.  Termination: the state number increases in every step. */
-#define UVIEW_IN(u, v)                                                                                                 \
-    (((u)->v.ptr == NULL && (u)->v.len == 0) ||                                                                        \
-     ((u)->uri_str.buffer != NULL && __CPROVER_same_object((u)->v.ptr, (u)->uri_str.buffer) &&                         \
-      (size_t)__CPROVER_POINTER_OFFSET((u)->v.ptr) <= (u)->uri_str.len &&                                              \
-      (u)->v.len <= (u)->uri_str.len - (size_t)__CPROVER_POINTER_OFFSET((u)->v.ptr)))
-#define ALL_UVIEWS_IN(u)                                                                                               \
-    (UVIEW_IN(u, scheme) && UVIEW_IN(u, authority) && UVIEW_IN(u, userinfo) && UVIEW_IN(u, user) && UVIEW_IN(u, password) && \
-     UVIEW_IN(u, host_name) && UVIEW_IN(u, path) && UVIEW_IN(u, query_string) && UVIEW_IN(u, path_and_query))
-#define UVIEW_ZERO(u, v) ((u)->v.ptr == NULL && (u)->v.len == 0)
-#define ALL_UVIEWS_ZERO(u)                                                                                             \
-    (UVIEW_ZERO(u, scheme) && UVIEW_ZERO(u, authority) && UVIEW_ZERO(u, userinfo) && UVIEW_ZERO(u, user) && UVIEW_ZERO(u, password) && \
-     UVIEW_ZERO(u, host_name) && UVIEW_ZERO(u, path) && UVIEW_ZERO(u, query_string) && UVIEW_ZERO(u, path_and_query))
 static int s_init_from_uri_str(struct aws_uri *uri)
 __CPROVER_requires(__CPROVER_is_fresh(uri, sizeof(*uri)))
 __CPROVER_requires(BUF_FIELDS_OK(&uri->uri_str))
 __CPROVER_requires(ALL_UVIEWS_ZERO(uri) && uri->port == 0)
-__CPROVER_requires(!g_mc_on && g_pu.calls == 0)
-__CPROVER_assigns(*uri, g_last_error, g_raise_count, g_mc_n, __CPROVER_object_whole(g_mc), g_pu)
+__CPROVER_requires(!g_mc_on)
+__CPROVER_assigns(*uri, g_last_error, g_raise_count, g_mc_n, __CPROVER_object_whole(g_mc), g_pu.ptr, g_pu.len, g_pu.calls)
 __CPROVER_frees(uri->uri_str.buffer)
 __CPROVER_ensures(RET == AWS_OP_SUCCESS || RET == AWS_OP_ERR)
 __CPROVER_ensures(RET == AWS_OP_SUCCESS ==> uri->uri_str.buffer == OLD(uri->uri_str.buffer) && uri->uri_str.len == OLD(uri->uri_str.len) &&
